@@ -53,10 +53,18 @@ static inline u64 F2U64(f64 f) { union { f64 f; u64 u; } x; x.f = f; return x.u;
 static inline f32 U2F32(u32 u) { union { f32 f; u32 u; } x; x.u = u; return x.f; }
 static inline f64 U2F64(u64 u) { union { f64 f; u64 u; } x; x.u = u; return x.f; }
 
-/* shifts: amount >= width is poison -> non-deterministic value (LL_*X: x86 masking semantics) */
+/* shifts: amount >= width is poison (C++ UB).  Default model: what compiled x86 code can produce -- either the scalar
+ * instruction's count masking or the SIMD result (0 / sign fill) if the loop was vectorised; both are explored.
+ * -DLL_SHIFT_POISON_NONDET makes it a fully non-deterministic value instead. */
+#ifdef LL_SHIFT_POISON_NONDET
 #define LL_SHL(U, C, W, a, b) (((u64)(b)) < (W) ? (U)((C)(a) << (b)) : (U)nondet_u64())
 #define LL_LSHR(U, C, W, a, b) (((u64)(b)) < (W) ? (U)((C)(a) >> (b)) : (U)nondet_u64())
 #define LL_ASHR(U, S, W, a, b) (((u64)(b)) < (W) ? (U)((S)(a) >> (b)) : (U)nondet_u64())
+#else
+#define LL_SHL(U, C, W, a, b) (((u64)(b)) < (W) ? (U)((C)(a) << (b)) : (nondet_u1() ? (U)0 : LL_SHLX(U, C, W, a, b)))
+#define LL_LSHR(U, C, W, a, b) (((u64)(b)) < (W) ? (U)((C)(a) >> (b)) : (nondet_u1() ? (U)0 : LL_LSHRX(U, C, W, a, b)))
+#define LL_ASHR(U, S, W, a, b) (((u64)(b)) < (W) ? (U)((S)(a) >> (b)) : (nondet_u1() ? (U)((S)(a) >> ((W) - 1)) : LL_ASHRX(U, S, W, a, b)))
+#endif
 #define LL_SHLX(U, C, W, a, b) ((U)((C)(a) << ((b) & ((W) < 64 ? 31 : 63))))
 #define LL_LSHRX(U, C, W, a, b) ((U)((C)(a) >> ((b) & ((W) < 64 ? 31 : 63))))
 #define LL_ASHRX(U, S, W, a, b) ((U)((S)(a) >> ((b) & ((W) < 64 ? 31 : 63))))
